@@ -23,7 +23,7 @@ func C05(c *Ctx) {
 		"(R2) the phase states form a dominator chain from __idle to stage_signing_idle with no skipping or backward edge; (R3) cancelled states of the invitation and DKG machines cannot reach any await state or signing-ready; " +
 		"(R4) each validator emits its advance event only under the normalised guard count(Status==Confirmed) >= N, the cancel event only under count(Status==Error/Declined) >= 1, the timeout event only under IsExpired(); " +
 		"(R5) every per-participant status store is gated by Status==<phase>Await on the same participant and QuorumExists(request.ParticipantId), and stores only that phase's constants; validators reset to the next phase's Await; " +
-		"(R6) the node never persists the outcome of an FSM step that returned an error (every dump given to SaveFSM is the result of a Do/Dump call, reachable only over its nil-error edge) — callback-level purity is deliberately not demanded; (R7) master-key mismatch emits the cancel event; (R8) hand-over events are issued only under the matching resp.State. " +
+		"(R6) the node never persists the outcome of an FSM step that returned an error (every dump given to SaveFSM is the result of a Do/Dump call, reachable only over its nil-error edge) — callback-level purity is deliberately not demanded; (R7) master-key mismatch emits the cancel event; (R8) hand-over events are issued only under the matching resp.State; (R9) the contribution requests' Validate refuses zero-length contribution bytes (an empty contribution is not a delivery). " +
 		"NOT decided: deadline arithmetic on concrete timestamps, the exhaustive n<=4 exploration of the property's quantifier (the static argument is parametric in n), JSON/map behaviour."
 	r.Trusted = []string{"go/types, go/ssa (x/tools v0.29.0)", "Go map/range semantics (each element visited once)", "time.Time.Before"}
 	ms := c.Machines("C05/A1")
@@ -41,6 +41,60 @@ func C05(c *Ctx) {
 	c05StatusGates(c, ms)
 	c05Handover(c, "C05/R8", map[string]string{evDKGInit: stSigCollected, evSigningInit: stMasterKeyCollect})
 	c05Purity(c, ms)
+	c05NonEmptyContribution(c)
+}
+
+// c05NonEmptyContribution — R9: "delivery" of a phase means contribution bytes arrived. Each contribution request's
+// Validate (which the callbacks call before they count the participant, R5) refuses an empty contribution: a length test
+// of the contribution field whose empty edge cannot reach the nil return.
+func c05NonEmptyContribution(c *Ctx) {
+	r := c.R
+	r.Rule("C05/R9", "an empty contribution is not a delivery: Validate refuses zero-length contribution bytes", 4)
+	for _, tf := range [][2]string{
+		{"DKGProposalCommitConfirmationRequest", "Commit"},
+		{"DKGProposalDealConfirmationRequest", "Deal"},
+		{"DKGProposalResponseConfirmationRequest", "Response"},
+		{"DKGProposalMasterKeyConfirmationRequest", "MasterKey"},
+	} {
+		fn := c.Fn("C05/R9", pkgRequests, tf[0], "Validate")
+		if fn == nil {
+			continue
+		}
+		var emptyEdges []ssax.Edge
+		for _, cd := range ssax.Conds(fn) {
+			la := lenArg(cd.X)
+			if la == nil || !strings.HasSuffix(ssax.Path(la), "."+tf[1]) {
+				continue
+			}
+			k, ok := ssax.ConstInt(cd.Y)
+			if !ok {
+				continue
+			}
+			switch {
+			case cd.Op == token.EQL && k == 0, cd.Op == token.LSS && k == 1, cd.Op == token.LEQ && k == 0:
+				emptyEdges = append(emptyEdges, ssax.Edge{From: cd.If.Block(), Succ: 0})
+			case cd.Op == token.NEQ && k == 0, cd.Op == token.GEQ && k == 1, cd.Op == token.GTR && k == 0:
+				emptyEdges = append(emptyEdges, ssax.Edge{From: cd.If.Block(), Succ: 1})
+			}
+		}
+		ok := len(emptyEdges) > 0
+		detail := "no test of len(r." + tf[1] + ") against zero"
+		if ok {
+			// every nil return lies behind the non-empty edge: unreachable when only the empty edge may be taken
+			for _, e := range emptyEdges {
+				first := e.From.Succs[e.Succ].Instrs[0]
+				for _, ret := range ssax.Returns(fn) {
+					for _, lf := range ssax.Leaves(ret.Results[0], ret) {
+						if ssax.IsNilConst(lf.V) && (lf.At == first || ssax.ReachableFrom(fn, first, lf.At, nil, nil)) {
+							ok, detail = false, "Validate can still return nil after finding the contribution empty"
+						}
+					}
+				}
+			}
+		}
+		r.Check(ok, "C05/R9", "requests."+tf[0]+".Validate:non-empty-"+tf[1], "a request with an empty "+tf[1]+" is refused", c.Pos(fn.Pos()),
+			detail+": an empty contribution would be counted as delivered and the phase could advance without it")
+	}
 }
 
 // ---------- engine rules ----------
